@@ -1,5 +1,6 @@
 """C14 Resource exhaustion"""
 import elin
+import efreelist
 import eoom
 import eevent
 
@@ -20,6 +21,8 @@ def run(ctx):
                 "terminals; std::process::abort is reachable only through the reviewed sites (AbortOnDrop, rc overflow "
                 "guards). The two by-design abort-on-OOM sites are known findings.")
     eoom.run(ctx, F)
+    ctx.explain("E-FREELIST.count: an OutOfMemory exit of get_slot_from_shared undoes the +1 it added to the shared node count.")
+    efreelist.check_count_bookkeeping(ctx, F)
     ctx.explain("E-EVENT.gc-order: terminals are swept after all inner-node levels, so that one collection after dropping "
                 "the handles of a failed operation frees the terminal slots the retry needs.")
     eevent.check_gc_sweep_order(ctx, F, "oxidd_manager_index")
